@@ -1,5 +1,6 @@
 # property table: what each check builds, proves and runs
 from .fam_valid import Valid
+from .fam_be import Be
 
 PROPS = {}
 
@@ -22,3 +23,9 @@ reg(id="C20",
         "rs2v translates the validator bodies faithfully (checked on every case of this run against the real is_valid())",
         "field values range over the width of their wire type (hypotheses of the theorems)",
     ])
+
+
+reg(id="BE-DEV",
+    props="Props/C20.v",
+    families=[Be()],
+    rule="development entry for the be family")
